@@ -641,6 +641,15 @@ def p_optional(ctx):
         b.fields.append(A.scalar(ctx.fid(), w, cond=A.constraint(fl, value=cv)))
     b.scalar(8)
     ctx.decls.append(A.packet(ctx.uid("P"), b.fields))
+    # two flags in one declaration, each guarding two optional fields (whatever a generator keeps per
+    # flag must not leak from the first flag to the second)
+    b = Body(ctx)
+    fa, fb = b.flag(), b.flag()
+    b.align()
+    for fl_, conds in ((fa, [1, 1]), (fb, rng.choice([[0, 1], [1, 1], [0, 0]]))):
+        for cv in conds:
+            b.fields.append(A.scalar(ctx.fid(), rng.choice([8, 16, 24]), cond=A.constraint(fl_, value=cv)))
+    ctx.decls.append(A.packet(ctx.uid("P"), b.fields))
     ctx.features.add("shared_flag")
     for _ in range(rng.randint(3, 5)):
         b = Body(ctx)
